@@ -198,6 +198,22 @@ def msec_surface(c):
 
 
 def run_msec(c, o):
+    """the wing as drawn, then - in the same process - wings that differ from it in one parameter only (a result remembered from an
+    earlier call must not be handed out for a different wing), then the first wing again"""
+    msec_checks(c, o)
+    for key in ("root_chord", "span", "taper", "sweep"):
+        v = dict(c)
+        if key == "root_chord":
+            v[key] = float(np.round(c[key] * 1.37, 4))
+        elif key == "sweep":
+            v[key] = [x + 0.07 for x in c[key]]
+        else:
+            v[key] = [float(np.round(x * 0.83, 4)) for x in c[key]]
+        msec_checks(v, o, extra=["variant=" + key])
+    msec_checks(c, o, extra=["again"])
+
+
+def msec_checks(c, o, extra=()):
     from openaerostruct.geometry import geometry_mesh_gen as G
 
     s = msec_surface(c)
@@ -205,7 +221,7 @@ def run_msec(c, o):
     sym = c["symmetry"]
     root = ns - 1 if (sym or ns == 1) else c["root_section"]
     n_right = 0 if sym else ns - 1 - root
-    tags = ["msec", "sym" if sym else "asym", "right_sections=%d" % n_right]
+    tags = ["msec", "sym" if sym else "asym", "right_sections=%d" % n_right] + list(extra)
     o.tags = tags
     mesh, secs = G.generate_mesh(s)
     nx = c["nx"]
